@@ -128,16 +128,16 @@ def topo_names(m: refsem.Model, names):
 
 
 def check_named_slots(prog: Prog, view, m: refsem.Model, fn: str, index_kind: str, names, what,
-                      extra_env=None, missing=None, cut: Cut | None = None, grow_cut=False):
+                      extra_env=None, missing=None, cut: Cut | None = None, grow_cut=False, tag=""):
     """rhs / monitor_values: slot index(name) == reference meaning of name's expression."""
-    res = sym_function(prog, view, fn)
+    res = sym_function(prog, view, fn, label=f"{view.backend}|{fn}{tag}|exec")
     if res is None:
         return
     slots, n, _ = res
     imap = view.index_map(index_kind)
     names = topo_names(m, names)
     for name in names:
-        label = f"{view.backend}|{fn}|{name}"
+        label = f"{view.backend}|{fn}{tag}|{name}"
         key = name
         if index_kind == "state":
             key = m.derivative_of(name)
@@ -182,13 +182,13 @@ def check_named_slots(prog: Prog, view, m: refsem.Model, fn: str, index_kind: st
             cut.add(prog.ctx, name, gen)
 
 
-def check_rhs_monitor(prog: Prog, view, m: refsem.Model, do_monitor=True):
+def check_rhs_monitor(prog: Prog, view, m: refsem.Model, do_monitor=True, tag=""):
     ders = [n for n in m.assigns if m.derivative_of(n)]
     cut = Cut()
     if do_monitor and view.has("monitor_values"):
         check_named_slots(prog, view, m, "monitor_values", "monitor", list(m.assigns), "monitor", cut=cut,
-                          grow_cut=True)
-    check_named_slots(prog, view, m, "rhs", "state", ders, "rhs", cut=cut)
+                          grow_cut=True, tag=tag)
+    check_named_slots(prog, view, m, "rhs", "state", ders, "rhs", cut=cut, tag=tag)
     return cut
 
 
@@ -244,8 +244,8 @@ def state_slots(view, m: refsem.Model):
 # ----------------------------------------------------------------------------
 # C05 explicit Euler
 # ----------------------------------------------------------------------------
-def check_euler(prog: Prog, view, m: refsem.Model, fn="explicit_euler", rhs_slots=None):
-    res = sym_function(prog, view, fn)
+def check_euler(prog: Prog, view, m: refsem.Model, fn="explicit_euler", rhs_slots=None, tag=""):
+    res = sym_function(prog, view, fn, label=f"{view.backend}|{fn}{tag}|exec")
     if res is None:
         return None
     slots, n, _ = res
@@ -258,7 +258,7 @@ def check_euler(prog: Prog, view, m: refsem.Model, fn="explicit_euler", rhs_slot
     dom = model_domain(prog, m)
     dt = c.inp("dt")
     for s, idx in state_slots(view, m).items():
-        label = f"{view.backend}|{fn}|{s}"
+        label = f"{view.backend}|{fn}{tag}|{s}"
         if idx not in slots:
             prog.fact(label, False, "SlotNotWritten", f"{fn} never writes slot {idx} ({s})")
             continue
